@@ -157,6 +157,7 @@ type Exec struct {
 	freshRefs map[*Term]bool
 	firstIter []*Term
 	sortFlag  *Term
+	flagCells []*Cell // values registered with package flag (assigned by flag.Parse)
 	hints     []hintT
 }
 
@@ -552,6 +553,11 @@ func (fr *Frame) rootRead(p *Ptr, st *State) (*Term, []PathElem) {
 		}
 		if c := ex.globalCell(p.Global); c != nil {
 			return st.cells[c], p.Path
+		}
+		if p.Global.Pkg != nil && p.Global.Pkg.Pkg.Path() == "os" {
+			if id, ok := osFiles[p.Global.Name()]; ok {
+				return IntLit(id), p.Path // the standard streams are three distinct, fixed objects
+			}
 		}
 		ex.unsupp("read of unknown global %s", p.Global.Name())
 		return ex.p.FreshConst("glob", ex.p.w.SortOf(p.Global.Type().(*types.Pointer).Elem())), p.Path
@@ -1003,8 +1009,8 @@ func (fr *Frame) mergeStates(preds []*ssa.BasicBlock, b *ssa.BasicBlock) *State 
 		for i := len(preds) - 1; i >= 0; i-- {
 			v, ok := fr.out[preds[i]].ghost[k]
 			if !ok {
-				if strings.HasPrefix(k, "sort") {
-					continue // record of the last sort.Stable call: only defined where one happened
+				if strings.HasPrefix(k, "sort") || strings.HasPrefix(k, "ret:") || strings.HasPrefix(k, "arg:") {
+					continue // records of calls: only defined where one happened
 				}
 				v = TFalse
 			}
